@@ -3,8 +3,10 @@ Model of `detector/detector.go` (`Run`, `validateAdvisories`) and of the tail of
 (index built from the merged inventory, detectors run, findings appended, `sro.Err`, `newScanResult`,
 `sortResults` for findings and plugin statuses) — C20.
 
-* A finding is a Go POINTER: `Run` tags it in place (`f.Detectors = []string{d.Name()}`), so the model
-  keeps the pointer identity `ptr`; what is reported for a finding is the tag written LAST for that pointer.
+* A detector returns `[]*Finding`: an entry may be nil (`none`). `Run` (since fix e8c67092) appends a tagged
+  COPY of every non-nil entry (`tagged := *f; tagged.Detectors = []string{d.Name()}`) and appends a nil
+  entry as nil, which `validateAdvisories` then reports as an error. The object the detector returned is
+  never written to; `ptr` only records which object a reported finding is a copy of.
 * `reflect.DeepEqual(adv, *f.Adv)` on two advisories with equal IDs is structural equality of the
   remaining fields, modelled as equality of the opaque `body` (assumption: no NaN CVSS scores, for
   which DeepEqual is irreflexive).
@@ -26,7 +28,7 @@ deriving DecidableEq, Repr
 
 /-- `*detector.Finding` -/
 structure Finding where
-  ptr : Nat                    -- identity of the pointer
+  ptr : Nat                    -- which object the detector returned (the reported finding is a copy of it)
   adv : Option Adv             -- `none` = nil Adv
   target : Nat                 -- Target (opaque payload)
   extra : Nat                  -- Extra (second sort key)
@@ -44,26 +46,35 @@ deriving DecidableEq, Repr
 
 structure Detector where
   name : String
-  scan : PkgMap → List Finding × Bool      -- (results, err ≠ nil)
+  scan : PkgMap → List (Option Finding) × Bool   -- (results with possibly-nil entries, err ≠ nil)
   cancels : Bool                           -- cancels the context during its Scan
 
 inductive RunErr
   | ctx                                    -- ctx.Err()
+  | nilFinding                             -- detector returned a nil finding
   | noAdvisory | noID
   | mismatch (id : Nat × Nat)              -- multiple non-identical advisories with ID …
 deriving DecidableEq, Repr
 
 /-- state of the loop in `Run` -/
 structure St where
-  findings : List Finding := []
+  findings : List (Option Finding) := []
   status : List Status := []
-  tags : List (Nat × String) := []         -- pointer ↦ Detectors value written, newest first
   calls : List (String × PkgMap) := []     -- observation: which detector's Scan was called with which index
   cancelled : Bool := false
   ctxReturn : Bool := false                -- the loop returned `nil, nil, ctx.Err()`
 
 /-- `plugin.StatusFromErr(d, false, err)` -/
 def statusFromErr (name : String) (err : Bool) : Status := ⟨name, if err then .failed else .succeeded⟩
+
+/-- `tagged := *f; tagged.Detectors = []string{d.Name()}` -/
+def tagCopy (name : String) (f : Finding) : Finding := { f with detectors := [name] }
+
+/-- the inner loop over one detector's results: nil stays nil, everything else is copied and tagged -/
+def tagResults (name : String) (results : List (Option Finding)) : List (Option Finding) :=
+  results.map fun r => match r with
+    | none => none
+    | some f => some (tagCopy name f)
 
 def runLoop (px : PkgMap) : List Detector → St → St
   | [], s => s
@@ -72,31 +83,21 @@ def runLoop (px : PkgMap) : List Detector → St → St
     else
       let r := d.scan px                                        -- results, err := d.Scan(ctx, scanRoot, index)
       runLoop px ds
-        { findings := s.findings ++ r.1                        -- findings = append(findings, results...)
+        { findings := s.findings ++ tagResults d.name r.1      -- findings = append(findings, &tagged / nil)
           status := s.status ++ [statusFromErr d.name r.2]     -- status = append(status, StatusFromErr(d, false, err))
-          tags := (r.1.map fun f => (f.ptr, d.name)) ++ s.tags -- for f in results { f.Detectors = []string{d.Name()} }
           calls := s.calls ++ [(d.name, px)]
           cancelled := s.cancelled || d.cancels
           ctxReturn := false }
-
-def lookTag : List (Nat × String) → Nat → Option String
-  | [], _ => none
-  | (k, v) :: rest, p => if k = p then some v else lookTag rest p
-
-/-- the finding as seen through its pointer once all tagging has happened -/
-def applyTags (tags : List (Nat × String)) (f : Finding) : Finding :=
-  match lookTag tags f.ptr with
-  | some n => { f with detectors := [n] }
-  | none => f
 
 def lookAdv : List ((Nat × Nat) × Adv) → (Nat × Nat) → Option Adv
   | [], _ => none
   | (k, v) :: rest, i => if k = i then some v else lookAdv rest i
 
 /-- `validateAdvisories`, with the map `ids` as an association list (newest first) -/
-def validate : List Finding → List ((Nat × Nat) × Adv) → Option RunErr
+def validate : List (Option Finding) → List ((Nat × Nat) × Adv) → Option RunErr
   | [], _ => none
-  | f :: fs, ids =>
+  | none :: _, _ => some .nilFinding
+  | some f :: fs, ids =>
     match f.adv with
     | none => some .noAdvisory
     | some a =>
@@ -113,15 +114,15 @@ structure RunOut where
   err : Option RunErr
   calls : List (String × PkgMap)
 
-/-- `detector.Run` -/
+/-- `detector.Run`. On success the returned slice is the validated one, which holds no nil entry
+(`C20_run_no_nil`), so it is given as a list of findings. -/
 def run (ds : List Detector) (px : PkgMap) : RunOut :=
   let s := runLoop px ds {}
   if s.ctxReturn then ⟨[], [], some .ctx, s.calls⟩
   else
-    let fs := s.findings.map (applyTags s.tags)
-    match validate fs [] with
+    match validate s.findings [] with
     | some e => ⟨[], s.status, some e, s.calls⟩
-    | none => ⟨fs, s.status, none, s.calls⟩
+    | none => ⟨s.findings.filterMap id, s.status, none, s.calls⟩
 
 /-! ### tail of `Scan` -/
 
